@@ -93,6 +93,11 @@ class Result:
             return mhttp.status_class(self.value)
         if self.kind == "multistatus":
             return "2xx"
+        if self.kind == "single":
+            st = self.value.status
+            if st is None:
+                return "2xx"  # 207 with propstat
+            return mhttp.status_class(Wd.Response(status=st))
         if self.kind == "xml":
             st = self.value[0]
             return mhttp.status_class(Wd.Response(status=st))
@@ -100,6 +105,8 @@ class Result:
 
     @property
     def statuses(self):
+        if self.kind == "single":
+            return [self.value]
         return self.value if self.kind == "multistatus" else []
 
     def header(self, name):
@@ -142,7 +149,8 @@ def call(app, method, path_info, *, headers=None, body=b"", content_type="applic
 
     def send_dav(responses, enc):
         if isinstance(responses, Wd.Status):
-            return _Raw("multistatus", [responses])
+            # a single DAV status (e.g. _send_simple_dav_error): the HTTP status is the Status' own
+            return _Raw("single", responses)
         return _Raw("multistatus", list(responses))
 
     def send_xml(status, et, enc):
